@@ -61,15 +61,25 @@ def ev(T, n, p, sig, dor):
     return (not v) if isinstance(n, (T.Not, T.Prohibit)) else v
 
 
-def reported(T, tree, sig, M, O):
-    """the premise of the property (PropagateSpec.reported)"""
+def pre_neg(T, n, q, sig, dor):
+    """what a reported name says about an element covering several terms: its value, taken BEFORE the negation
+    when the element is itself a NOT / - (the same convention as for an element covering one term, where the
+    name tells whether the TERM matched)"""
+    if isinstance(n, (T.Not, T.Prohibit)):
+        return ev(T, n.children[0], q + (0,), sig, dor)
+    return ev(T, n, q, sig, dor)
+
+
+def reported(T, tree, sig, M, O, dor=True):
+    """the premise of the property: PropagateSpec.reported (an element covering several terms is never reported),
+    widened: such an element may also be reported, exactly when it evaluates to true"""
     named = M | O
     cn = dict(cnodes(T, tree))
     for q, n in cn.items():
         if q in named:
             a = covered(T, n, q)
             if a is None:
-                if q in M:
+                if q in M and not pre_neg(T, n, q, sig, dor):
                     return False
             else:
                 if (q in M) != sig[a]:
@@ -213,32 +223,42 @@ def correspond(model_ok, res):
         n_assign = 1 if ti < 5 else 2
         for _ in range(n_assign):
             sig = {p: r.random() < 0.5 for p in leaves}
-            names = []
-            free = r.random() < 0.15          # sometimes report arbitrary names (outside the premise)
-            for nm, q in m.items():
-                if q in cn and not free:
-                    a = covered(T, cn[q], q)
-                    if a is not None and sig[a]:
-                        names.append(nm)
-                elif r.random() < 0.5:
-                    names.append(nm)
-            r.shuffle(names)
-            if r.random() < 0.03:
-                names.append("zz")             # KeyError in matching_from_names
-            try:
-                M, O = naming.matching_from_names(list(names), dict(m))
-            except KeyError:
-                dist["keyerror_cases"] += 1
-                cases.append("(%s, COrOperation, %s, %s, None, ([], []))" % (
-                    g_tree, lib.g_list([lib.g_str(x) for x in names]),
-                    lib.g_list(["(%s, %s)" % (lib.g_str(k), lib.g_path(v)) for k, v in m.items()])))
-                payloads.append({"tree": desc[:1500], "names": names})
-                continue
+            # how names are reported: 15% arbitrary names (outside the premise); 40% only the elements that cover
+            # ONE term, when that term is true; 45% every named element exactly when it evaluates to true (what
+            # Elasticsearch reports for named queries: an element covering several terms included)
+            mode = r.random()
+
+            def names_for(dor):
+                out = []
+                for nm, q in m.items():
+                    if q in cn and mode >= 0.15:
+                        a = covered(T, cn[q], q)
+                        if a is not None:
+                            if sig[a]:
+                                out.append(nm)
+                        elif mode >= 0.55 and pre_neg(T, cn[q], q, sig, dor):
+                            out.append(nm)
+                    elif r.random() < 0.5:
+                        out.append(nm)
+                r.shuffle(out)
+                if r.random() < 0.03:
+                    out.append("zz")             # KeyError in matching_from_names
+                return out
             defaults = [T.OrOperation, T.AndOperation]
             if r.random() < 0.1:
                 defaults.append(r.choice([T.UnknownOperation, T.BoolOperation]))
             for dflt in defaults:
                 dor = dflt is T.OrOperation
+                names = names_for(dor)
+                try:
+                    M, O = naming.matching_from_names(list(names), dict(m))
+                except KeyError:
+                    dist["keyerror_cases"] += 1
+                    cases.append("(%s, COrOperation, %s, %s, None, ([], []))" % (
+                        g_tree, lib.g_list([lib.g_str(x) for x in names]),
+                        lib.g_list(["(%s, %s)" % (lib.g_str(k), lib.g_path(v)) for k, v in m.items()])))
+                    payloads.append({"tree": desc[:1500], "names": names})
+                    continue
                 t_run = copy.deepcopy(tree)
                 M_in, O_in = set(M), set(O)
                 ok, ko = naming.MatchingPropagator(dflt)(t_run, M_in, O_in)
@@ -255,7 +275,7 @@ def correspond(model_ok, res):
                     why = "a path is in both result sets"
                 elif (ok | ko) != set(cn):
                     why = "classified paths are not exactly the sub-expressions"
-                prem = reported(T, tree, sig, M, O)
+                prem = reported(T, tree, sig, M, O, dor)
                 if prem:
                     dist["premise_holds"] += 1
                     exp_ok = {p for p, n in cn.items() if ev(T, n, p, sig, dor)}
